@@ -29,7 +29,7 @@ RULE = ('1-6 concurrent callRemote()s (with/without deadline, expectReply, decla
 STATE_MEASURE = 'order type of the completion events (return/error/timeout/loss/sigmismatch) of a run'
 PROBES = ['reply-and-deadline-both-enabled', 'reply-after-timeout', 'duplicate-reply-delivered',
           'unsolicited-reply-delivered', 'loss-with-pending-calls', 'replies-out-of-call-order',
-          'sig-mismatch', 'call-issued-from-callback']
+          'sig-mismatch', 'call-issued-from-callback', 'second-connection-same-serials']
 COMPONENTS = {
     'real': ['txdbus.client.DBusClientConnection (callRemote, callRemoteMessage, '
              'methodReturnReceived, errorReceived, _onMethodTimeout, connectionLost, _cbCvtReply)',
@@ -68,11 +68,23 @@ def expected_value(m):
 def scenario(ctx):
     ds, sim = ctx.ds, ctx.sim
     unix = ds.flag(0.3)
-    rig = ClientRig(ctx, unix=unix)
+    start = 1 + ds.choose(2**32 - 10**6)
+    rig = ClientRig(ctx, unix=unix, serial_start=start)
     cl = rig.proto
     daemon = rig.daemon
     sched = Scheduler(ctx)
     ctx.config.update(unix=unix)
+    # a second connection of the same process whose calls carry the SAME serial numbers (each
+    # simulated process counts from the same start): bookkeeping must be per connection
+    other = None
+    if 'order' not in ctx.preset and ds.flag(0.25):
+        sim.probe('second-connection-same-serials')
+        rig2 = ClientRig(ctx, name='c2', serial_start=start, bus_name=':1.43')
+        other = {'rig': rig2, 'calls': []}
+        for k in range(1 + ds.choose(2)):
+            d2 = rig2.call(rig2.proto.callRemote, '/svc', 'Other%d' % k, interface=SVC_IFACE,
+                           destination=SVC_DEST)
+            other['calls'].append((rig2.sent[-1].serial, Obs(sim, 'other%d' % k, []).watch(d2), 900 + k))
 
     scripted = 'order' in ctx.preset
     stashed = []                 # violations raised inside user callbacks (must not be swallowed)
@@ -475,6 +487,21 @@ def scenario(ctx):
         raise Violation('C08/leak-timer', 'timer left at the end',
                         '%d timers still pending after every call completed'
                         % len(sim.pending_timers()))
+    if other is not None:
+        r2 = other['rig']
+        for serial, obs2, val in other['calls']:
+            if obs2.fired:
+                raise Violation('C08/wrong-call', 'call of another connection completed',
+                                'a call pending on another connection of the process completed '
+                                'although that connection saw no reply: %r' % (obs2.fired,))
+        for serial, obs2, val in reversed(other['calls']):
+            r2.daemon.method_return(serial, 'i', [val], dest=r2.bus_name, sender=':1.7')
+        r2.calm()
+        for serial, obs2, val in other['calls']:
+            if obs2.fired != [('ok', val)]:
+                raise Violation('C08/wrong-value', 'second connection',
+                                'call on the second connection expected %r, observed %r'
+                                % (val, obs2.fired))
     check_no_logged_errors(ctx, 'C08')
     if len(set(c.cid for c in completed)) > 1:
         order = [c.cid for c in completed]
